@@ -150,7 +150,7 @@ PROPS = {
         level_note=_CHAIN_NOTE,
     ),
     "C14": dict(
-        tie=["Ucan.Props.Tie.Tokenize"],
+        tie=["Ucan.Props.Tie.Tokenize", "Ucan.Props.Tie.PolicyDecode"],
         props_module="Ucan.Props.C14",
         streams=["selparse", "polipld"],
         technique="Lean 4 proofs: the tokenizer partitions its input (induction over the byte list with the loop state generalised), every accepted selector is the concatenation of tokens each classified into one segment keeping its text, unterminated quotes are rejected, the printed text of an accepted selector parses to the very same selector (the tokenizer is characterised by a quote-state scan; well-formed tokens concatenated re-tokenize to themselves), and FromIPLD∘ToIPLD is the identity up to selector re-printing (mutual structural induction over the statement tree); tied by exhaustive parsing of all strings ≤ N over the 11 syntax characters and by policy-node round trips incl. DAG-JSON",
@@ -201,7 +201,7 @@ PROPS = {
         level_note=_TOKEN_NOTE + " The component round trips are hypotheses of the theorems (DID: C16_parse_print; command: C15_parse_ok_iff; policy: C14_policy_roundtrip with C14_print_reparse for the selectors).",
     ),
     "C10": dict(
-        tie=["Ucan.Props.Tie.ParseTime", "Ucan.Props.Tie.Command", "Ucan.Props.Tie.CommandApi", "Ucan.Props.Tie.Decode", "Ucan.Props.Tie.DecodeBridge", "Ucan.Props.Tie.Inspect", "Ucan.Props.Tie.FindTag", "Ucan.Props.Tie.Limits", "Ucan.Props.Tie.Args", "Ucan.Props.Tie.ParseDid"],
+        tie=["Ucan.Props.Tie.ParseTime", "Ucan.Props.Tie.Command", "Ucan.Props.Tie.CommandApi", "Ucan.Props.Tie.Decode", "Ucan.Props.Tie.DecodeBridge", "Ucan.Props.Tie.Inspect", "Ucan.Props.Tie.FindTag", "Ucan.Props.Tie.Limits", "Ucan.Props.Tie.Args", "Ucan.Props.Tie.ParseDid", "Ucan.Props.Tie.PolicyDecode"],
         props_module="Ucan.Props.C10",
         streams=["token"],
         # field cases count in ONE direction: something malformed is accepted (or accepted with another value than the model
